@@ -212,3 +212,9 @@ def check_outputs(body, rep, rule, gk):
             kinds.add('private_der')
     ok = kinds == {'public_pem', 'private_der'}
     rep.ob(rule, ok, '%s|%s|outputs' % (rule, body.nkey), 'writes public_as_pem() and private_der of the generated pair' if ok else 'output files do not carry the PEM public key and DER private key of the generated pair (%s)' % sorted(kinds), body.loc())
+
+
+def thorough_extra(rep, verif, repo):
+    """documentation cross-reference of the current tree (positive mismatches only)"""
+    from .. import docscan
+    return docscan.scan_readme(rep, verif, repo)
